@@ -99,6 +99,7 @@ func init() {
 		a := c.core()
 		if a.ok {
 			c.rulesC06(a, c.lockAnalysis())
+			c.rulesC06x(a)
 		}
 	})
 	register("C13", propInfo{
@@ -227,5 +228,6 @@ func init() {
 		Trusted:     commonTrusted,
 	}, func(c *Ctx) {
 		c.rulesC16()
+		c.rulesC16buf()
 	})
 }
